@@ -31,6 +31,8 @@ for i in ids:
         text = text + " " + R9[i]
     if i in globals().get('R10', {}):
         text = text + " " + R10[i]
+    if i in globals().get('R11', {}):
+        text = text + " " + R11[i]
     checks.append({
         "property_id": i,
         "quick_cmd": f"bin/vcheck -property {i} -tier quick",
